@@ -702,6 +702,27 @@ M("r16-head-frontier-stops-before-end-marker", ["C06", "C12", "C07"], "break",
 M("r16-head-frontier-le-form-benign", ["C06", "C12", "C07"], "benign",
   [("yaep.c", "\t  tok_curr++;\n\t  if (tok_curr < toks_len)", "\t  tok_curr++;\n\t  if (tok_curr <= toks_len - 1)")])
 
+# ---- F39 and the tenth wave rules ----------------------------------------------------------------------
+M("r16-revert-F39-hop-forgets-old-frontier", ["C07", "C06", "C12"], "break",
+  [("yaep.c", "\t  if (pl[back_pl_frontier]->core->term != grammar->term_error)\n\t    backward_move_cost++;\n", "")], "hop-counts-the-old-frontier")
+M("r16-accept-before-end-marker", ["C07", "C06"], "break",
+  [("yaep.c", "      if (n_matched_toks >= grammar->recovery_token_matches\n\t  || tok_curr >= toks_len)", "      if (n_matched_toks >= grammar->recovery_token_matches\n\t  || tok_curr >= toks_len - 1)")], "accepted-when-all-tokens-consumed")
+M("r16-secondary-state-with-popped-cost", ["C07", "C06"], "break",
+  [("yaep.c", "\t      push_recovery_state (state.last_original_pl_el, cost,\n\t\t\t\t   state.back_toks);", "\t      push_recovery_state (state.last_original_pl_el,\n\t\t\t\t   state.backward_move_cost, state.back_toks);")], "continuing-state-cost")
+M("r14-tail-pointer-before-growth", ["C12", "C07"], "break",
+  [("yaep.c", "  /* The token numbers of the sets are placed after the sets.  */\n  OS_TOP_ADD_MEMORY (recovery_state_tail_sets,", "  state.pl_tail = (struct set **) OS_TOP_BEGIN (recovery_state_tail_sets);\n  /* The token numbers of the sets are placed after the sets.  */\n  OS_TOP_ADD_MEMORY (recovery_state_tail_sets,"),
+   ("yaep.c", "\t\t     state.pl_tail_length * sizeof (int));\n  state.pl_tail = (struct set **) OS_TOP_BEGIN (recovery_state_tail_sets);\n", "\t\t     state.pl_tail_length * sizeof (int));\n")],
+  "new_recovery_state/")
+M("r27-cache-place-is-token-number", ["C09", "C01", "C18", "C07"], "break",
+  [("yaep.c", "\t  ((struct set_term_lookahead *) *entry)->place[i] = pl_curr;", "\t  ((struct set_term_lookahead *) *entry)->place[i] = tok_curr;")], "place-is-parser-list-position")
+M("r15-exempt-distance-two", ["C03", "C01", "C09"], "break",
+  [("yaep.c", "      if ((dist = dists[i]) <= 1)\n\tcontinue;", "      if ((dist = dists[i]) <= 2)\n\tcontinue;")], "exempt-distances")
+M("r13-unmark-before-reservation-test", ["C04", "C13"], "break",
+  [("yaep.c", "\t  entry = find_hash_table_entry (reserv_mem_tab, *node_ptr, TRUE);\n\t  if (*entry != NULL)\n\t    continue;", "\t  if ((*node_ptr)->type == YAEP_NIL)\n\t    (*node_ptr)->val.nil.used = 0;\n\t  entry = find_hash_table_entry (reserv_mem_tab, *node_ptr, TRUE);\n\t  if (*entry != NULL)\n\t    continue;")],
+  "find_minimal_translation/unmark")
+M("c10-cost-check-only-with-translation", ["C10"], "break",
+  [("yaep.c", "      if (anode != NULL && anode_cost < 0)", "      if (transl != NULL && anode != NULL && anode_cost < 0)")], "YAEP_NEGATIVE_COST")
+
 # ---- R8 / R2f (C16, C19) ----------------------------------------------------------------------------
 M("r8-revert-F14", ["C19", "C16"], "break", [("hashtab.cpp", "		  entry_ptr = first_deleted_entry_ptr;\n		  *entry_ptr = EMPTY_ENTRY;", "		  entry_ptr = first_deleted_entry_ptr;\n		  *entry_ptr = DELETED_ENTRY;")], "find_hash_table_entry~")
 M("r2f-revert-F15", ["C19", "C16"], "break", [("hashtab.cpp", "  ::operator delete (new_htab);", "  yaep_free (new_htab->alloc, new_htab);")], "expand_hash_table/new")
